@@ -331,3 +331,5 @@ PROPS["C10"]["functions"] += ["vectorizers/timed_token_cooccurrence_vectorizer.p
 
 for _p in ("C03", "C14", "C10"):
     PROPS[_p]["functions"] += [WK + "variable_window_radii"]
+
+PROPS["C10"]["functions"] += ["vectorizers/multi_token_cooccurence_vectorizer.py::numba_build_multi_skip_grams"]
